@@ -28,6 +28,7 @@ type caseSpec struct {
 	Name   string // fixed cases only
 	Script script
 	Env    []string // additional environment passed to the library ("" = none)
+	SinkUS int      // the loggers handed to the library need that long per message (a slow consumer)
 	labels map[string]int
 }
 
@@ -542,6 +543,32 @@ func fixedCases() []*caseSpec {
 		mk("cancelled through Cancel()", "cancel-method", 0, "", mkOps(1, "before the hang\n", 0)),
 		mk("cancelled by the context deadline", "cancel-timeout", 0, "", mkOps(1, "before the hang\n", 0)),
 	)
+	// the streams outlive the child, or are drained slowly: the result still follows the exit status and nothing is lost
+	many := func(n int) []op {
+		var b []byte
+		for i := 0; i < n; i++ {
+			b = append(b, []byte(fmt.Sprintf("%05d %s\n", i, repeatLine(40, 'a')))...)
+		}
+		return []op{{S: 1, B: b}}
+	}
+	linger := func(name, mode string, exit, ms int) *caseSpec {
+		cs := mk(name, mode, exit, "", mkOps(1, "about to exit\n", 0, 2, "bye\n", 0))
+		cs.Script.Linger = ms
+		return cs
+	}
+	slow := func(name, mode string, exit, lines, us int) *caseSpec {
+		cs := mk(name, mode, exit, "", many(lines))
+		cs.SinkUS = us
+		return cs
+	}
+	l = append(l,
+		linger("exit 0 while a descendant keeps the streams open for 1.7 s", "execute", 0, 1700),
+		linger("exit 0 while a descendant keeps the streams open for 2.6 s (Output)", "output", 0, 2600),
+		linger("exit 5 while a descendant keeps the streams open for 1.4 s", "execute", 5, 1400),
+		slow("4000 lines at once, loggers need 0.5 ms per message", "execute", 0, 4000, 500),
+		slow("3000 lines at once, loggers need 0.8 ms per message (Output)", "output", 0, 3000, 800),
+		slow("3000 lines at once, loggers need 0.6 ms per message, exit 9", "execute", 9, 3000, 600),
+	)
 	for i, cs := range l {
 		cs.Index = -1 - i
 	}
@@ -554,5 +581,5 @@ func (cs *caseSpec) canonical() string {
 		fmt.Fprintf(h, "%d:%d:%d:", o.S, len(o.B), o.P)
 		h.Write(o.B)
 	}
-	return fmt.Sprintf("%s|exit=%d|sig=%s|hang=%v|env=%d|%x", cs.Mode, cs.Script.Exit, cs.Script.Signal, cs.Script.Hang, len(cs.Env), h.Sum(nil)[:16])
+	return fmt.Sprintf("%s|exit=%d|sig=%s|hang=%v|env=%d|linger=%d|sink=%d|%x", cs.Mode, cs.Script.Exit, cs.Script.Signal, cs.Script.Hang, len(cs.Env), cs.Script.Linger, cs.SinkUS, h.Sum(nil)[:16])
 }
